@@ -85,6 +85,20 @@ func initIntrinsics() {
 	for _, op := range []string{"Add", "Sub", "Mul", "Div", "Mod"} {
 		t[u+"(*Int)."+op] = bin(op)
 	}
+	t[u+"(*Int).DivMod"] = &intrinsic{mods: u256Mods, doc: "z.DivMod(x,y,m): z = x/y, m = x%y (both 0 when y == 0); returns (z, m)", exec: func(vc *VC, fr *frame, st *State, c *ssa.CallCommon, args []Val, rt types.Type, pos token.Pos) Val {
+		p := vc.P
+		z, x, y, m := vc.asInt(args[0]), vc.asInt(args[1]), vc.asInt(args[2]), vc.asInt(args[3])
+		vc.nonNil(st, fr, z, "DivMod.z", pos)
+		vc.nonNil(st, fr, x, "DivMod.x", pos)
+		vc.nonNil(st, fr, y, "DivMod.y", pos)
+		vc.nonNil(st, fr, m, "DivMod.m", pos)
+		xv, yv := vc.u256Get(st, x), vc.u256Get(st, y)
+		q := p.Ite(p.Eq(yv, p.Int(0)), p.Int(0), p.Div(xv, yv))
+		r := p.Ite(p.Eq(yv, p.Int(0)), p.Int(0), p.Mod(xv, yv))
+		vc.u256Set(st, z, q)
+		vc.u256Set(st, m, r)
+		return Val{K: VStruct, Fs: []Val{scalar(z), scalar(m)}}
+	}}
 	t[u+"NewInt"] = &intrinsic{mods: u256Mods, doc: "NewInt(v): fresh Int with value v", exec: func(vc *VC, fr *frame, st *State, c *ssa.CallCommon, args []Val, rt types.Type, pos token.Pos) Val {
 		r := vc.newRef(st, "u256")
 		vc.u256Set(st, r, vc.asInt(args[0]))
